@@ -5,6 +5,31 @@ modular arithmetic, and the explicit form of a complete session.
 -/
 import MpcVerif.Model.Vole
 import MpcVerif.Proofs.Proto2
+
+namespace Mpc
+/-- Element-wise relation of two lists of the same length (call `k` of the
+history with result `k`). -/
+inductive Forall2 {α β : Type} (R : α → β → Prop) : List α → List β → Prop
+  | nil : Forall2 R [] []
+  | cons {a : α} {b : β} {as : List α} {bs : List β} : R a b → Forall2 R as bs → Forall2 R (a :: as) (b :: bs)
+
+theorem Forall2.length_eq {α β : Type} {R : α → β → Prop} {as : List α} {bs : List β}
+    (h : Forall2 R as bs) : as.length = bs.length := by
+  induction h with
+  | nil => rfl
+  | cons _ _ ih => simp [ih]
+
+theorem Forall2.get {α β : Type} {R : α → β → Prop} {as : List α} {bs : List β}
+    (h : Forall2 R as bs) : ∀ (k : Nat) (a : α) (b : β), as[k]? = some a → bs[k]? = some b → R a b := by
+  induction h with
+  | nil => intro k a b ha; simp at ha
+  | cons hr _ ih =>
+    intro k a b ha hb
+    cases k with
+    | zero => simp at ha hb; subst ha hb; exact hr
+    | succ k => simp at ha hb; exact ih k a b ha hb
+end Mpc
+
 namespace Mpc.Vole
 
 
@@ -211,5 +236,43 @@ theorem session_ok (prg : BitVec 128 → Nat) (labels : List (BitVec 128)) (xs y
   have hx0 : xs.length ≠ 0 := by omega
   simp only [session, receiverY, hym, senderMul, receiverUs, hly, hx0, hll, hyl, hyu, hum, hul2, huu,
     ne_eq, not_true_eq_false, if_false]
+
+/-! ### Histories of `Mul` calls -/
+
+/-- The hypotheses of the property on one call: a modulus of at most 256
+bits, vectors of equal length (possibly empty), `y < 2^256`. -/
+def Call.Ok (c : Call) : Prop :=
+  0 < c.p ∧ c.p ≤ 2 ^ 256 ∧ c.ys.length = c.xs.length ∧ ∀ y ∈ c.ys, y < 2 ^ 256
+
+/-- The share relation of one call's outputs. -/
+def ShareRel (c : Call) (s : Session) : Prop :=
+  s.rs.length = c.xs.length ∧ s.us.length = c.xs.length ∧
+  ∀ i, i < c.xs.length → ∃ r u x y,
+    s.rs[i]? = some r ∧ s.us[i]? = some u ∧ c.xs[i]? = some x ∧ c.ys[i]? = some y ∧
+    r < c.p ∧ u < c.p ∧
+    ((u : Int) - (r : Int)) % (c.p : Int) = ((x : Int) * (y : Int)) % (c.p : Int) ∧
+    (u + c.p - r) % c.p = (x * y) % c.p
+
+theorem callLabels_length (cot : Nat → BitVec 128) (pos m : Nat) : (callLabels cot pos m).length = m := by
+  simp [callLabels]
+
+/-- Lifting a per-call fact to a history: if every admissible call succeeds
+from every state with a result satisfying `R`, moving the position by
+`roundUp8 m`, then so does every history of admissible calls. -/
+theorem runCalls_of_step (prg : BitVec 128 → Nat) (cot : Nat → BitVec 128) (R : Call → Session → Prop)
+    (hstep : ∀ st c, c.Ok → ∃ s, mulStep prg cot st c = .ok (⟨st.pos + roundUp8 c.xs.length⟩, s) ∧ R c s) :
+    ∀ (calls : List Call) (st : St), (∀ c ∈ calls, c.Ok) →
+      ∃ ss, runCalls prg cot st calls =
+          .ok (⟨st.pos + (calls.map fun c => roundUp8 c.xs.length).sum⟩, ss) ∧
+        Forall2 R calls ss := by
+  intro calls
+  induction calls with
+  | nil => intro st _; exact ⟨[], by simp [runCalls], .nil⟩
+  | cons c cs ih =>
+    intro st h
+    obtain ⟨s, hs, hr⟩ := hstep st c (h c (by simp))
+    obtain ⟨ss, hss, hrr⟩ := ih ⟨st.pos + roundUp8 c.xs.length⟩ (fun d hd => h d (by simp [hd]))
+    refine ⟨s :: ss, ?_, .cons hr hrr⟩
+    simp only [runCalls, hs, hss, List.map_cons, List.sum_cons, Nat.add_assoc]
 
 end Mpc.Vole
